@@ -97,7 +97,13 @@ func genHdrTok(r *rand.Rand, maxEntries int) string {
 		}
 		seen[norm] = true
 		var v string
-		switch r.Intn(7) {
+		switch r.Intn(8) {
+		case 7: // a value nested 1..14 levels deep (with the message's own levels still far from the decoder's limit of 32)
+			d := 1 + r.Intn(14)
+			v = strings.Repeat("[ ", d) + genIntTok(r) + strings.Repeat(" ]", d)
+			if r.Intn(2) == 0 {
+				v = strings.Repeat("{ int:1 ", d) + genIntTok(r) + strings.Repeat(" }", d)
+			}
 		case 0, 1:
 			v = genIntTok(r)
 		case 2:
